@@ -261,6 +261,9 @@ def run(ctx):
             sy = Sym(ar)
             lens = [c for c in nonforeign_calls(ar) if c.is_("Vec<T, A>::len") and "'targets'" in repr(arg_syms(c)[0])]
             push = [c for c in nonforeign_calls(ar) if c.is_("Vec<T, A>::push") and "'targets'" in repr(arg_syms(c)[0])]
+            # the length read that becomes the index is the one taken before the push (a later read, e.g. in a debug assertion,
+            # is not the index)
+            lens = [c for c in lens if len(push) == 1 and b.dominates(c.bb, push[0].bb) and c.bb != push[0].bb] if len(push) == 1 else lens
             ok = len(lens) == 1 and len(push) == 1 and b.dominates(lens[0].bb, push[0].bb) and lens[0].bb != push[0].bb
             chk.ob("C13.d", f"{ar.path} [index before push]", ok, "target index = targets.len() taken before the push (keeps get_unchecked in bounds)" if ok else "the stored index is not targets.len() taken before pushing the recorder", ar.loc())
             inserts = [c for c in nonforeign_calls(ar) if c.is_("Trie<K, V>::insert", "insert") and "radix_trie" in (c.resolved or "")]
